@@ -121,8 +121,6 @@ class Interp:
         r = self.objects[name]
         if "spec" in r:
             obj, inputs = build.build_root(r["kind"], r["spec"])
-            if r["kind"] == "sequence":
-                obj = obj.sequence if obj is not None and getattr(obj, "sequence", None) is not None else obj
             if table is self.live:
                 self.inputs[name] = inputs
         else:
@@ -247,6 +245,14 @@ def _refs(x):
     return out
 
 
+def _root_of(objects, name):
+    seen = set()
+    while name in objects and "from" in objects[name] and name not in seen:
+        seen.add(name)
+        name = objects[name]["from"]
+    return name
+
+
 def _parent_cache_info():
     from inscripta.biocantor.parent.parent import Parent
 
@@ -268,6 +274,8 @@ def world_main(plan):
     it = Interp(plan)
     recs = []
     flood_serial = 0
+    snap_cache = {}
+    fam_version = {}
     for k, st in enumerate(plan["steps"]):
         t = st["t"]
         if t == "flood":
@@ -305,16 +313,29 @@ def world_main(plan):
             continue
         opers = it.operands(st)
         rec["warm"] = _warm(it.live[st["obj"]])
-        before = {n: it.snapshot(n) for n in opers}
+        # operand snapshots: the snapshot taken after the previous step on the same family is still valid if no step
+        # touched that family since (only steps mutate; floods / gc / foreign builds never write to live objects)
+        fams = {n: _root_of(plan["objects"], n) for n in opers}
+        before = {}
+        for n in opers:
+            c = snap_cache.get(n)
+            before[n] = c[1] if c and c[0] == fam_version.get(fams[n], 0) else it.snapshot(n)
         res, ans = it.answer(st["obj"], st["op"], st.get("args", []))
         rec["ans"] = ans
+        for f in set(fams.values()):
+            fam_version[f] = fam_version.get(f, 0) + 1
         if "store" in st:
             raised = ans.startswith('{"#":"raise"')
             it.live[st["store"]] = None if raised else res
             rec["stored_kind"] = ops.classify(res)
             if raised:
                 rec["undef"] = True
-        mutated = [n for n in opers if it.snapshot(n) != before[n]]
+        mutated = []
+        for n in opers:
+            after = it.snapshot(n)
+            snap_cache[n] = (fam_version[fams[n]], after)
+            if after != before[n]:
+                mutated.append(n)
         if mutated:
             rec["mut"] = mutated
             rec["obs"] = {n: dumps(it.observe(n)) for n in mutated}
